@@ -599,34 +599,73 @@ class Interp:
         inv = getattr(self, "_inv_loops", None)
         if inv and stmts is inv[-1][0].body and not inv[-1][2]:
             inv[-1][2] = True
-            self._carried_state_havocked(inv[-1][0], inv[-1][1], frame)
+            return self._exec_arbitrary_iteration(stmts, frame, inv[-1][1], inv[-1][0])
         for s in stmts:
             self.exec_stmt(s, frame)
 
-    def _carried_state_havocked(self, loop, snapshot, frame):
-        """the body of a loop verified by invariant is about to run for the ARBITRARY iteration: every local the loop carries from one
-        iteration to the next (assigned in the loop, read in the body before it is written) must have been replaced by the sidecar's
-        arbitrary state since the loop was entered. One that still holds its pre-loop object was not havocked - the sidecar does not
-        know this variable (a maintainer introduced or renamed it): the contract does not apply to this text (undecided, exit 2)"""
-        assigned = set()
-        for node in [loop.target] + list(loop.body) if isinstance(loop, ast.For) else list(loop.body):
-            for x in ast.walk(node):
-                if isinstance(x, ast.Name) and isinstance(x.ctx, ast.Store):
-                    assigned.add(x.id)
-        written, readfirst = set(), set()
-        if isinstance(loop, ast.For):
-            written |= {x.id for x in ast.walk(loop.target) if isinstance(x, ast.Name)}
-        for st in loop.body:
-            loads = {x.id for x in ast.walk(st) if isinstance(x, ast.Name) and isinstance(x.ctx, ast.Load)}
-            if isinstance(st, ast.AugAssign):
-                loads |= {x.id for x in ast.walk(st.target) if isinstance(x, ast.Name)}
-            readfirst |= loads - written
-            if isinstance(st, (ast.Assign, ast.AnnAssign, ast.AugAssign)):
-                written |= {x.id for x in ast.walk(st) if isinstance(x, ast.Name) and isinstance(x.ctx, ast.Store)}
-        exempt = getattr(self, "inplace_havoc", set())
-        for v in sorted(assigned & readfirst):
-            if v in snapshot and v in frame.locals and frame.locals[v] is snapshot[v] and v not in exempt:
-                raise Unsupported("the loop carries the local '%s' from one iteration to the next, and the sidecar's invariant does not cover it" % v)
+    @staticmethod
+    def _read_before_written(loop):
+        """locals the loop body may read before it has (certainly) written them - conservative: straight-line statements in order,
+        both branches of an `if` (written afterwards = written in both), bodies of nested loops / with / try read with what is
+        written before them and contribute nothing certain"""
+        readfirst = set()
+
+        def names(node, ctx):
+            return {x.id for x in ast.walk(node) if isinstance(x, ast.Name) and isinstance(x.ctx, ctx)}
+
+        def block(stmts, written):
+            written = set(written)
+            for st in stmts:
+                if isinstance(st, ast.If):
+                    readfirst.update(names(st.test, ast.Load) - written)
+                    w1, w2 = block(st.body, written), block(st.orelse, written)
+                    written = w1 & w2
+                elif isinstance(st, (ast.For, ast.While, ast.With, ast.Try)):
+                    for part in ("iter", "test", "items"):
+                        sub = getattr(st, part, None)
+                        for x in (sub if isinstance(sub, list) else [sub] if sub is not None else []):
+                            readfirst.update(names(x, ast.Load) - written)
+                    inner = set(written) | (names(st.target, ast.Store) if isinstance(st, ast.For) else set())
+                    for part in ("body", "orelse", "finalbody"):
+                        block(getattr(st, part, []) or [], inner)
+                    for h in getattr(st, "handlers", []) or []:
+                        block(h.body, inner)
+                else:
+                    loads = names(st, ast.Load)
+                    if isinstance(st, ast.AugAssign):
+                        loads |= names(st.target, ast.Store)
+                    readfirst.update(loads - written)
+                    if isinstance(st, (ast.Assign, ast.AnnAssign, ast.AugAssign)):
+                        written |= {t.id for t in (st.targets if isinstance(st, ast.Assign) else [st.target]) for t in ([t] if isinstance(t, ast.Name) else [e for e in getattr(t, "elts", []) if isinstance(e, ast.Name)])}
+            return written
+
+        block(loop.body, names(loop.target, ast.Store) if isinstance(loop, ast.For) else set())
+        return readfirst
+
+    def _exec_arbitrary_iteration(self, stmts, frame, snapshot, loop):
+        """the body of a loop verified by invariant, run for the ARBITRARY iteration. A tensor- or SMT-valued local that still holds
+        its pre-loop object when the body starts was not replaced by the sidecar's arbitrary state; if the body then assigns it (or
+        updates it in place), the loop carries state the sidecar's invariant does not know - a maintainer introduced or renamed a
+        variable: the contract does not apply to this text (undecided, exit 2), instead of obligations being judged on a stale value"""
+        watched = {}
+        carried = self._read_before_written(loop)
+        for v, o in snapshot.items():
+            if v in carried and v in frame.locals and frame.locals[v] is o and (is_z3(o) or type(o).__name__ in ("ST", "CT", "SymVec")):
+                watched[v] = (o, getattr(o, "elem", None), getattr(o, "a", None))
+
+        def check():
+            for v, (o, el, arr) in watched.items():
+                now = frame.locals.get(v)
+                if now is not o or getattr(now, "elem", None) is not el or getattr(now, "a", None) is not arr:
+                    raise Unsupported("the loop carries the local '%s' from one iteration to the next, and the sidecar's invariant does not cover it" % v)
+
+        try:
+            for s in stmts:
+                self.exec_stmt(s, frame)
+        except _Continue:
+            check()
+            raise
+        check()
 
     def exec_stmt(self, s, frame):
         m = getattr(self, "st_" + type(s).__name__, None)
